@@ -4,7 +4,10 @@
 //! * `ser`: the bytes written by the REAL `output_cobertura` (non-pretty) are compared BYTE FOR
 //!   BYTE with `xmlSerialize` of the model (`c03.cobbytes.ser`); only the float attributes
 //!   (`line-rate`, `branch-rate`) and `timestamp` are handed to the model as the implementation
-//!   printed them, and the functions in the order the implementation's hash map iterated them.
+//!   printed them; the function tables go to the model in the iteration order of the HARNESS's hash
+//!   map (nothing about the order is read from the real report: the model sorts by name itself,
+//!   `Writers.FnOrder.coberturaBytes`). A quarter of the sets is written with demangling ON, with
+//!   names that really demangle (`dm.rs`); the model gets the printed names as a table.
 //! * `parse`: the model's reader (`c03.cobbytes.parse`) on the real bytes, plain (strict) and pretty
 //!   (indentation skipped), against quick-xml's reader (tree level) — and against expat
 //!   (tools/c18_decode.py): same verdict, same attribute values, same character data, same number of
@@ -13,7 +16,7 @@
 //!   inside the quantifier; a separate stream with control characters / line terminators / U+FFFF
 //!   (outside the quantifier) records what a real parser does with them and checks that the model's
 //!   reader does the same.
-use crate::cobade::{attr, gen_set, parse_shown, parse_xml, shown, X, RS};
+use crate::cobade::{gen_set, parse_shown, parse_xml, shown, X, RS};
 use corrlib::*;
 use grcov::*;
 use serde_json::{json, Value};
@@ -71,34 +74,28 @@ fn rename_some(rng: &mut Rng, rs: &mut RS, pool: &[&str], all: bool) {
     rs.retain(|r| seen.insert(r.1.clone()));
 }
 
-/// (path, attr, value) of the masked attributes and, per class, the method names in document order
-fn masks_and_order(x: &X, path: &mut Vec<usize>, masks: &mut Vec<String>, orders: &mut Vec<Vec<String>>) {
+/// (path, attr, value) of the masked attributes
+fn masks_of(x: &X, path: &mut Vec<usize>, masks: &mut Vec<String>) {
     if let X::E { tag, attrs, kids } = x {
         for (k, v) in attrs {
             if k == "line-rate" || k == "branch-rate" || k == "timestamp" {
                 masks.push(format!("{}/{}={}", path.iter().map(|i| i.to_string()).collect::<Vec<_>>().join("."), k, hex(v.as_bytes())));
             }
         }
-        if tag == "methods" {
-            orders.push(kids.iter().map(|m| attr(m, "name").unwrap_or("").to_string()).collect());
-        }
+        let _ = tag;
         for (i, k) in kids.iter().enumerate() {
             path.push(i);
-            masks_and_order(k, path, masks, orders);
+            masks_of(k, path, masks);
             path.pop();
         }
     }
 }
 
-/// `K<hex>=<cov>` with the functions in the given order
-fn entry(rel: &str, c: &CovResult, order: &[String]) -> String {
+/// `K<hex>=<cov>` with the functions in the iteration order of the harness's own hash map
+fn entry(rel: &str, c: &CovResult) -> String {
     let ls = c.lines.iter().map(|(l, n)| format!("{}:{}", l, n)).collect::<Vec<_>>().join(",");
     let bs = c.branches.iter().map(|(l, v)| format!("{}:{}", l, bits(v))).collect::<Vec<_>>().join(",");
-    let fs = order
-        .iter()
-        .filter_map(|n| c.functions.get(n).map(|f| format!("{}:{}:{}", hex(n.as_bytes()), f.start, if f.executed { 1 } else { 0 })))
-        .collect::<Vec<_>>()
-        .join(",");
+    let fs = c.functions.iter().map(|(n, f)| format!("{}:{}:{}", hex(n.as_bytes()), f.start, if f.executed { 1 } else { 0 })).collect::<Vec<_>>().join(",");
     format!("K{}=L{};B{};F{}", hex(rel.as_bytes()), ls, bs, fs)
 }
 
@@ -153,29 +150,34 @@ struct Doc {
     controls: bool,
     plain: Vec<u8>,
     pretty: Vec<u8>,
+    /// written with demangling on; `dmarg` = the `D…` argument, `printed` = mangled -> printed
+    on: bool,
+    dmarg: String,
+    printed: std::collections::BTreeMap<String, String>,
 }
 
-fn write_real(rs: &RS, src: Option<&str>, out: &Path, pretty: bool) -> Result<Vec<u8>, String> {
+fn write_real(rs: &RS, src: Option<&str>, out: &Path, pretty: bool, on: bool) -> Result<Vec<u8>, String> {
     let _ = std::fs::create_dir_all(out);
     let p = out.join(if pretty { "cb_pretty.xml" } else { "cb.xml" });
     let _ = std::fs::remove_file(&p);
     let srcp = src.map(PathBuf::from);
-    guarded(|| output_cobertura(srcp.as_deref(), rs, Some(&p), false, pretty))?;
+    guarded(|| output_cobertura(srcp.as_deref(), rs, Some(&p), on, pretty))?;
     std::fs::read(&p).map_err(|e| e.to_string())
 }
 
 fn ser_request(d: &Doc) -> Result<String, String> {
     let text = String::from_utf8(d.plain.clone()).map_err(|_| "report is not UTF-8".to_string())?;
-    // quick-xml's reader is used only to find the masked values and the method order
+    // quick-xml's reader is used only to find the masked values (floats, timestamp)
     let x = parse_xml(&text)?;
-    let (mut masks, mut orders) = (vec![], vec![]);
-    masks_and_order(&x, &mut vec![], &mut masks, &mut orders);
-    if orders.len() != d.rs.len() {
-        return Err(format!("{} <methods> elements for {} files", orders.len(), d.rs.len()));
-    }
-    let entries: Vec<String> = d.rs.iter().zip(orders.iter()).map(|((_, rel, c), o)| entry(rel.to_str().unwrap(), c, o)).collect();
+    let mut masks = vec![];
+    masks_of(&x, &mut vec![], &mut masks);
+    let entries: Vec<String> = d.rs.iter().map(|(_, rel, c)| entry(rel.to_str().unwrap(), c)).collect();
     let src = d.src.as_ref().map(|s| format!("S{}", hex(s.as_bytes()))).unwrap_or("-".into());
     let mut r = format!("c03.cobbytes.ser {} V{}", src, masks.join(","));
+    if !d.dmarg.is_empty() {
+        r.push(' ');
+        r.push_str(&d.dmarg);
+    }
     for e in entries {
         r.push(' ');
         r.push_str(&e);
@@ -204,7 +206,7 @@ fn expat(workdir: &Path, docs: &[(String, &[u8])]) -> Value {
 }
 
 fn case_json(d: &Doc, what: &str) -> Value {
-    json!({"op": "c03.cobbytes", "src": d.src, "results": shown(&d.rs), "controls": d.controls, "detail": what})
+    json!({"op": "c03.cobbytes", "src": d.src, "results": shown(&d.rs), "controls": d.controls, "demangle": d.on, "detail": what})
 }
 
 /// every name of the result set, as the report must carry it
@@ -213,7 +215,7 @@ fn expected_names(d: &Doc) -> Vec<Vec<u8>> {
     for (_, rel, c) in &d.rs {
         v.push(rel.to_str().unwrap().as_bytes().to_vec());
         for n in c.functions.keys() {
-            v.push(n.as_bytes().to_vec());
+            v.push(d.printed.get(n).unwrap_or(n).as_bytes().to_vec());
         }
     }
     v
@@ -329,12 +331,24 @@ fn check_docs(rep: &mut Report, docs: &[Doc], tag: &str) {
     }
 }
 
-fn make_doc(rep: &mut Report, rs: RS, src: Option<String>, controls: bool) -> Option<Doc> {
+fn make_doc(rep: &mut Report, rs: RS, src: Option<String>, controls: bool, on: bool) -> Option<Doc> {
     let out = rep.workdir.join("cobbytes_out");
-    let plain = write_real(&rs, src.as_deref(), &out, false);
-    let pretty = write_real(&rs, src.as_deref(), &out, true);
+    let (mut dmarg, mut printed) = (String::new(), std::collections::BTreeMap::new());
+    if on {
+        let mut dm = crate::dm::Dm::new(&rep.workdir);
+        if let Err(e) = dm.resolve_set(&rs) {
+            rep.fail("oracle", None, e, json!({"op": "c03.cobbytes", "src": src, "results": shown(&rs), "demangle": true}));
+            return None;
+        }
+        dmarg = dm.arg(true, &rs);
+        for n in rs.iter().flat_map(|r| r.2.functions.keys()) {
+            printed.insert(n.clone(), dm.name(true, n));
+        }
+    }
+    let plain = write_real(&rs, src.as_deref(), &out, false, on);
+    let pretty = write_real(&rs, src.as_deref(), &out, true, on);
     match (plain, pretty) {
-        (Ok(plain), Ok(pretty)) => Some(Doc { rs, src, controls, plain, pretty }),
+        (Ok(plain), Ok(pretty)) => Some(Doc { rs, src, controls, plain, pretty, on, dmarg, printed }),
         (a, _) => {
             rep.fail("oracle", None, format!("cobbytes: writer panicked: {:?}", a.err()), json!({"op": "c03.cobbytes", "src": src, "results": shown(&rs), "controls": controls}));
             None
@@ -360,6 +374,11 @@ pub fn run(rep: &mut Report) {
             continue;
         }
         rename_some(&mut rng, &mut rs, HOSTILE, false);
+        let on = i % 4 == 3;
+        if on {
+            crate::dm::sprinkle(&mut rng, &mut rs);
+            rep.count("cobbytes.demangle_on");
+        }
         let src = match rng.below(5) {
             0 => Some("/src root/é".to_string()),
             1 => Some(format!("dir{}", rng.pick(HOSTILE))),
@@ -371,7 +390,7 @@ pub fn run(rep: &mut Report) {
         if meta {
             rep.count("cobbytes.name_with_metacharacter");
         }
-        if let Some(d) = make_doc(rep, rs, src, false) {
+        if let Some(d) = make_doc(rep, rs, src, false, on) {
             if i == 3 {
                 rep.sample(json!({"cobbytes.report": String::from_utf8_lossy(&d.plain[..d.plain.len().min(400)])}));
             }
@@ -389,7 +408,7 @@ pub fn run(rep: &mut Report) {
         rename_some(&mut rng, &mut rs, CONTROLS, true);
         rep.case(&format!("cobbytes controls {}", shown(&rs)), false);
         rep.count("cobbytes.controls.sets");
-        if let Some(d) = make_doc(rep, rs, None, true) {
+        if let Some(d) = make_doc(rep, rs, None, true, false) {
             cdocs.push(d);
         }
     }
@@ -414,7 +433,7 @@ pub fn replay(rep: &mut Report, case: &Value) {
     let controls = case["controls"].as_bool().unwrap_or(false);
     std::fs::create_dir_all(rep.workdir.join("cobbytes_out")).unwrap();
     rep.case(&format!("cobbytes {:?} {}", src, shown(&rs)), true);
-    if let Some(d) = make_doc(rep, rs, src, controls) {
+    if let Some(d) = make_doc(rep, rs, src, controls, case["demangle"].as_bool().unwrap_or(false)) {
         check_docs(rep, &[d], "c03cobbytesreplay");
     }
 }
